@@ -139,7 +139,7 @@ func (w *World) constFuncGlobal(g *ssa.Global) *ssa.Function {
 	return w.cfg[g]
 }
 
-var pureExtPrefixes = []string{"github.com/lni/goutils/logutil.", "fmt.", "strconv.", "strings.", "errors.", "time.", "math.", "math/", "bytes.Equal", "bytes.Compare",
+var pureExtPrefixes = []string{"github.com/lni/goutils/logutil.", "(*github.com/lni/goutils/random.", "(github.com/lni/goutils/random.", "fmt.", "strconv.", "strings.", "errors.", "time.", "math.", "math/", "bytes.Equal", "bytes.Compare",
 	"github.com/cockroachdb/errors.", "hash/crc32.", "path/filepath.", "path.", "sort.Search", "unicode", "os.Getenv", "runtime.",
 	"(time.", "(*time.", "math/rand.", "(*math/rand.", "reflect.", "sync/atomic.", "github.com/lni/goutils/random."}
 
